@@ -866,7 +866,8 @@ theorem or_node (c : Cfg) (a : Ann) (l r : Ty) (hPl : P c l) (hOl : Por c l) (hP
 
 /-! ### the cases of the main induction -/
 
-theorem P_scalar (c : Cfg) (hu : c.unitHashable = true) (a : Ann) (s : Scalar) : P c (.scalar a s) := by
+theorem P_scalar (c : Cfg) (hu : c.unitHashable = true) (ht : c.tryUnpack = false) (a : Ann) (s : Scalar) :
+    P c (.scalar a s) := by
   intro cmp v hinv hty
   cases s <;> simp only [HasTy] at hty
   · subst hty
@@ -886,7 +887,7 @@ theorem P_scalar (c : Cfg) (hu : c.unitHashable = true) (a : Ann) (s : Scalar) :
   · obtain ⟨s, rfl, hs⟩ := hty
     exact ⟨.str s, by simp [toPy, scalarToPy], by simp [ofPy, scalarOfPy, hs], fun _ => by simp [PyObj.hashable], fun _ => by simp⟩
   · obtain ⟨b, rfl⟩ := hty
-    exact ⟨.bytes b, by simp [toPy, scalarToPy], by simp [ofPy, scalarOfPy], fun _ => by simp [PyObj.hashable], fun _ => by simp⟩
+    exact ⟨.bytes b, by simp [toPy, scalarToPy, ht], by simp [ofPy, scalarOfPy], fun _ => by simp [PyObj.hashable], fun _ => by simp⟩
   -- address, key_hash, key, signature, chain_id: the text `from_value` keeps
   · obtain ⟨s, rfl, hs⟩ := hty
     exact ⟨.str s, by simp [toPy, scalarToPy], by simp [ofPy, scalarOfPy, hs, Except.map], fun _ => by simp [PyObj.hashable], fun _ => by simp⟩
@@ -1262,11 +1263,12 @@ theorem P_or (c : Cfg) (a : Ann) (l r : Ty) (hO : Por c (.or a l r)) : P c (.or 
 
 
 /-- all three statements, for every type, by induction over the type -/
-theorem roundtrip_all (c : Cfg) (hu : c.unitHashable = true) : ∀ τ : Ty, P c τ ∧ Pflat c τ ∧ Por c τ := by
+theorem roundtrip_all (c : Cfg) (hu : c.unitHashable = true) (ht : c.tryUnpack = false) :
+    ∀ τ : Ty, P c τ ∧ Pflat c τ ∧ Por c τ := by
   intro τ
   induction τ with
   | scalar a s =>
-    exact ⟨P_scalar c hu a s, fun _ _ h => by simp [leavesInv] at h, fun _ _ h => by simp [orLeavesInv] at h⟩
+    exact ⟨P_scalar c hu ht a s, fun _ _ h => by simp [leavesInv] at h, fun _ _ h => by simp [orLeavesInv] at h⟩
   | pair a l r ihl ihr =>
     have hF := pair_node c a l r ihl.1 ihl.2.1 ihr.1 ihr.2.1
     exact ⟨P_pair c a l r hF, hF, fun _ _ h => by simp [orLeavesInv] at h⟩
@@ -1287,11 +1289,11 @@ theorem roundtrip_all (c : Cfg) (hu : c.unitHashable = true) : ∀ τ : Ty, P c 
     exact ⟨P_contract c a p, fun _ _ h => by simp [leavesInv] at h, fun _ _ h => by simp [orLeavesInv] at h⟩
 
 /-- the keys of the record a named pair converts to are the field names of its layout, in order -/
-theorem pair_record_keys (c : Cfg) (hu : c.unitHashable = true) (a : Ann) (l r : Ty) (v : Val)
+theorem pair_record_keys (c : Cfg) (hu : c.unitHashable = true) (ht : c.tryUnpack = false) (a : Ann) (l r : Ty) (v : Val)
     (hinv : inv c false (.pair a l r) = true) (hty : HasTy c (.pair a l r) v)
     (p2k : List (Path × String)) (hm : (pairLayout (.pair a l r)).pathToKey = some p2k) :
     ∃ fields, toPy c false (.pair a l r) v = .ok (.record fields) ∧ fields.map (·.1) = p2k.map (·.2) := by
-  have hF := (roundtrip_all c hu (.pair a l r)).2.1
+  have hF := (roundtrip_all c hu ht (.pair a l r)).2.1
   have hinv' := hinv
   have hty' := hty
   obtain ⟨x, y, rfl, hx, hy⟩ := hty
